@@ -239,7 +239,14 @@ func genC16(r *rt.Rand, tier string, idx int) *world.Scenario {
 		sc.Extra["tikv_regions"] = 1
 		for i := 0; i < 1+r.Intn(3); i++ {
 			kk := []string{prefix + "/a", prefix + "/a/b", prefix + "/b", prefix + "/pods/ns/p1", prefix + "/pods/ns/p2"}[r.Intn(5)]
-			sc.Parts = append(sc.Parts, hex.EncodeToString(simkv.EncodeKey([]byte(kk), []uint64{0, uint64(2 + r.Intn(30))}[r.Intn(2)])))
+			// (the node's first revision is the timestamp of its election: 1.1 simulated seconds after 2000-01-01,
+			// in nanoseconds; later revisions count up from there, so these borders fall between real versions)
+			const c16FirstRev = uint64(946684801100000000)
+			sc.Parts = append(sc.Parts, hex.EncodeToString(simkv.EncodeKey([]byte(kk), []uint64{0, c16FirstRev + uint64(2+r.Intn(30))}[r.Intn(2)])))
+			if r.Chance(0.4) {
+				// a second border inside the same key's versions
+				sc.Parts = append(sc.Parts, hex.EncodeToString(simkv.EncodeKey([]byte(kk), c16FirstRev+uint64(2+r.Intn(40)))))
+			}
 		}
 	}
 	if idx%6 == 2 {
